@@ -17,7 +17,7 @@ pub const DEF: PropDef = PropDef {
     id: "C15",
     run,
     oracle,
-    rule: "cases = (cache-preloading calls, measured call) from: F1 hostile headers over short bodies (every count/length field of every version set to 0xffff/0x7fff); F2 buffers packed with n minimal packets per version; F3 one packet with n minimal sets/flowsets (empty, one record) under small and 1000-field cached templates; F4 one set with n minimal records; F5 templates with n fields plus matching data; F6 templates with z zero-length fields x r records (z*r <= 2e5); F7 failing records (V9 retry loop); F1d chains of minimal messages whose data (variable-length prefix) or template (fixed width 65534; enterprise, string, octet-array and untyped elements) announces bytes the set does not hold; F9 decode-then-discard; F10 one packet whose n sets redefine (same kind / other kind) or carry data for n distinct ids of a cache that earlier calls filled with 6000 templates (cost must not depend on what is cached); F8 random hostile and conformant histories; sizes up to the 65,535-byte limit. Oracle per measured call: S1 alloc_bytes <= K0 + K1*|buf| + K2*result_size; S2 result_size <= K0 + K3*(|buf| + wire size of the cached templates); S3 (metamorphic, per family) cost(2n) <= 2.5*cost(n) + K0 for alloc_bytes, alloc_calls and result_size at successive doublings up to the limit. S5 (CPU work, counted as instructions executed inside the measured parse_bytes call by valgrind/callgrind on a helper binary - exact, no clock involved; per family at its maximal size n): instructions(n) <= 8 x instructions(n/4) + 3e6 (linear 4x, quadratic 16x); S6 (families F10, a packet of 500 sets): instructions against the 6000-template cache <= 2 x instructions against a cache holding only the 500 ids used + 5e5. K0 = 128 KiB; K1, K2, K3 calibrated once (4x the maximum observed on the unchanged tree over the generated cases that avoid open findings; recorded in the source). A bound that fails only by what the open finding 'zero-length fields are materialised per record' explains (budget computed from the templates in effect and the set sizes) is forgiven with that signature; anything else is a violation. non-trivial = |buf| >= 1 KiB, or a header field announces >= 16x more records/bytes than present, or the case is an S3 doubling pair; distinct by digest.",
+    rule: "cases = (cache-preloading calls, measured call) from: F1 hostile headers over short bodies (every count/length field of every version set to 0xffff/0x7fff); F2 buffers packed with n minimal packets per version (also with all 65,536 version numbers in the public allowed set); F3 one packet with n minimal sets/flowsets (empty, one record) under small and 1000-field cached templates; F4 one set with n minimal records; F5 templates with n fields plus matching data; F6 templates with z zero-length fields x r records (z*r <= 2e5); F7 failing records (V9 retry loop); F1d chains of minimal messages whose data (variable-length prefix) or template (fixed width 65534; enterprise, string, octet-array and untyped elements) announces bytes the set does not hold; F9 decode-then-discard; F10 one packet whose n sets redefine (same kind / other kind) or carry data for n distinct ids of a cache that earlier calls filled with 6000 templates (cost must not depend on what is cached); F8 random hostile and conformant histories; sizes up to the 65,535-byte limit. Oracle per measured call: S1 alloc_bytes <= K0 + K1*|buf| + K2*result_size; S2 result_size <= K0 + K3*(|buf| + wire size of the cached templates); S3 (metamorphic, per family) cost(2n) <= 2.5*cost(n) + K0 for alloc_bytes, alloc_calls and result_size at successive doublings up to the limit. S5 (CPU work, counted as instructions executed inside the measured parse_bytes call by valgrind/callgrind on a helper binary - exact, no clock involved; per family at its maximal size n): instructions(n) <= 8 x instructions(n/4) + 3e6 (linear 4x, quadratic 16x); S6 (families F10, a packet of 500 sets): instructions against the 6000-template cache <= 2 x instructions against a cache holding only the 500 ids used + 5e5. K0 = 128 KiB; K1, K2, K3 calibrated once (4x the maximum observed on the unchanged tree over the generated cases that avoid open findings; recorded in the source). A bound that fails only by what the open finding 'zero-length fields are materialised per record' explains (budget computed from the templates in effect and the set sizes) is forgiven with that signature; anything else is a violation. non-trivial = |buf| >= 1 KiB, or a header field announces >= 16x more records/bytes than present, or the case is an S3 doubling pair; distinct by digest.",
     assumptions: &[
         "memory cost is allocator traffic on the calling thread (deterministic); CPU cost is the instruction count of the measured call under callgrind (repeatable to within a few percent; skipped, and reported as skipped in the evidence, if valgrind is not installed); clocks are never an oracle",
         "constants K1..K3 are calibrated, not derived; the targeted defects exceed them by orders of magnitude",
@@ -334,6 +334,10 @@ pub fn oracle(case: &Case) -> Outcome {
     let mut lasts: Vec<Cost> = vec![];
     for (hi, half) in halves.iter().enumerate() {
         let mut p = obs::new_parser(&case.allowed_of(0));
+        if case.param("allow_all") != 0 {
+            // cost must not depend on how many versions the public allowed set holds
+            p.allowed_versions = obs::all_versions();
+        }
         let mut last = Cost::default();
         for (ci, c) in half.iter().enumerate() {
             let buf = c.buf();
@@ -509,7 +513,13 @@ pub fn family(name: &str, n: usize) -> Option<(Vec<Vec<u8>>, Vec<u8>)> {
     let wide = plain((0..1000).map(|i| ((i % 60 + 1) as u16, 1)).collect());
     let small = plain(vec![(1, 4)]);
     Some(match name {
-        "F2-chain-ipfix" => (vec![], ipfix_msg(&[]).repeat(n)),
+        "F2-chain-ipfix" | "F2a-chain-ipfix-all-versions-allowed" => (vec![], ipfix_msg(&[]).repeat(n)),
+        "F2a-chain-mixed-all-versions-allowed" => {
+            let mut unit = ipfix_msg(&[]);
+            unit.extend(v9_pkt(0, &[]));
+            unit.extend(enc_fixed(5, 0, &[0; 20], &[]));
+            (vec![], unit.repeat(n))
+        }
         "F2-chain-v9" => (vec![], v9_pkt(0, &[]).repeat(n)),
         "F2-chain-v5" => (vec![], enc_fixed(5, 0, &[0; 20], &[]).repeat(n)),
         "F2-chain-v7" => (vec![], enc_fixed(7, 0, &[0; 20], &[]).repeat(n)),
@@ -665,6 +675,8 @@ pub fn family(name: &str, n: usize) -> Option<(Vec<Vec<u8>>, Vec<u8>)> {
 /// (family, unit size in bytes per n, max n)
 pub const FAMILIES: &[(&str, usize, usize)] = &[
     ("F2-chain-ipfix", 16, 4095),
+    ("F2a-chain-ipfix-all-versions-allowed", 16, 4095),
+    ("F2a-chain-mixed-all-versions-allowed", 60, 1090),
     ("F2-chain-v9", 20, 3276),
     ("F2-chain-v5", 24, 2730),
     ("F2-chain-v7", 24, 2730),
@@ -744,6 +756,9 @@ fn doubling_cases() -> Vec<Case> {
             c.params.insert("split".into(), split as i64);
             if name.starts_with("F6") {
                 c.params.insert("zerolen".into(), 1);
+            }
+            if name.contains("all-versions-allowed") {
+                c.params.insert("allow_all".into(), 1);
             }
             out.push(c);
             n = half;
@@ -859,6 +874,9 @@ fn family_singles() -> Vec<Case> {
             let mut c = Case::history(bufs);
             if name.starts_with("F6") {
                 c.params.insert("zerolen".into(), 1);
+            }
+            if name.contains("all-versions-allowed") {
+                c.params.insert("allow_all".into(), 1);
             }
             out.push(c);
         }
